@@ -1,160 +1,38 @@
-import StrandModel.Lemmas.ShuffleComplete
-import StrandModel.Props.C15
+import StrandModel.Props.C03Core
+import StrandModel.Props.WireCorollaries
 /-
-C03 — completeness of the shuffle: for every number of ciphertexts N ≥ 1, every permutation
-(identity, reversal and N = 1 included), every ciphertext list (repeated ciphertexts and identity
-components included), every label and every lawful back-end, the proof `genProof` produces for
-the output of `applyPermutation` is accepted by `checkProof` on the same inputs, outputs, public
-key, generators and label.
-
-Generic over the hash functions (`o.hash`, `o.hashToExp` are arbitrary) and over the random
-tapes.  The proof goes through C04's characterisation of the verifier
-(`check_accepts_iff`: accepted ⟺ lengths ∧ Terelius–Wikström equations) and shows that the honest
-proof has the right lengths and satisfies every equation (`Lemmas/ShuffleComplete.lean`).
+C03 — honest shuffle proofs always verify.  `shuffle_complete` (every N ≥ 1, every permutation,
+every tape, every hash, any lawful back-end) is in `Props/C03Core.lean` (same namespace
+`Strand.C03`).  This file adds the clause "also after all of them have been serialized, written
+out and deserialized", proved in `Props/WireCorollaries.lean` from C12's codec laws.
 -/
 set_option linter.unusedSectionVars false
 namespace Strand.C03
 open Strand
 
-variable {E X : Type} [DecidableEq E] {o : Ops E X} {q : ℕ} {A : Type}
-  [AddCommGroup A] [Module (ZMod q) A]
-
-/-- **Completeness**, all N ≥ 1, every permutation of `0 … N-1`.  `tape1` feeds
-`apply_permutation` (N draws), `tape2` feeds `gen_proof` (N for the permutation commitments,
-N for the chain, 4 + N + N nonces). -/
-theorem shuffle_complete (L : Lawful o q A) (gens : List E) (pk : E) (es : List (Ciphertext E))
-    (perm : List Nat) (tape1 tape2 : List X) (label : Bytes)
+/-- the honest proof, the input list, the output list, the public key and the generator list
+    all survive serialisation, and the verifier accepts the DESERIALISED values -/
+theorem shuffle_proof_survives_wire (P : Params) (fl : Flavour) (h : SafePrimeGroup P) {k : Nat}
+    (W : WireSize P k) (gens : List ℕ) (pk : ℕ) (es : List (Ciphertext ℕ)) (perm : List Nat)
+    (tape1 tape2 : List ℕ) (label : Bytes)
     (hN : 0 < es.length) (hperm : perm.Perm (List.range es.length))
-    (hgens : gens.length = es.length + 1) (hgv : ∀ g ∈ gens, L.V g) (hpk : L.V pk)
-    (hes : ∀ c ∈ es, L.V c.mhr ∧ L.V c.gr)
-    (ht1 : es.length ≤ tape1.length) (ht2 : 4 * es.length + 4 ≤ tape2.length) :
+    (hgens : gens.length = es.length + 1) (hgv : ∀ g ∈ gens, (natLawful P fl h).V g)
+    (hpk : (natLawful P fl h).V pk)
+    (hes : ∀ c ∈ es, (natLawful P fl h).V c.mhr ∧ (natLawful P fl h).V c.gr)
+    (ht1 : es.length ≤ tape1.length) (ht2 : 4 * es.length + 4 ≤ tape2.length)
+    (h32 : es.length + 1 < 2 ^ 32) :
     ∃ eps rs rest1 pf rest2,
-      applyPermutation o pk perm es tape1 = .ok ((eps, rs), rest1) ∧
-      genProof o gens pk es eps rs perm label tape2 = .ok (pf, rest2) ∧
-      checkProof o gens pk pf es eps label = true := by
-  cases gens with
-  | nil => simp at hgens
-  | cons h0 hs =>
-    exact shuffle_complete_cons L h0 hs pk es perm tape1 tape2 label hN hperm
-      (by simpa using hgens) (hgv h0 (by simp)).1 (fun h hh => (hgv h (by simp [hh])).1) hpk.1
-      (fun c hc => ⟨(hes c hc).1.1, (hes c hc).2.1⟩) ht1 ht2
-
-/-- The same from group membership alone (inputs need not be in canonical form). -/
-theorem shuffle_complete_valid (L : Lawful o q A) (gens : List E) (pk : E)
-    (es : List (Ciphertext E)) (perm : List Nat) (tape1 tape2 : List X) (label : Bytes)
-    (hN : 0 < es.length) (hperm : perm.Perm (List.range es.length))
-    (hgens : gens.length = es.length + 1) (hgv : ∀ g ∈ gens, L.valid g) (hpk : L.valid pk)
-    (hes : ∀ c ∈ es, L.valid c.mhr ∧ L.valid c.gr)
-    (ht1 : es.length ≤ tape1.length) (ht2 : 4 * es.length + 4 ≤ tape2.length) :
-    ∃ eps rs rest1 pf rest2,
-      applyPermutation o pk perm es tape1 = .ok ((eps, rs), rest1) ∧
-      genProof o gens pk es eps rs perm label tape2 = .ok (pf, rest2) ∧
-      checkProof o gens pk pf es eps label = true := by
-  cases gens with
-  | nil => simp at hgens
-  | cons h0 hs =>
-    exact shuffle_complete_cons L h0 hs pk es perm tape1 tape2 label hN hperm
-      (by simpa using hgens) (hgv h0 (by simp)) (fun h hh => hgv h (by simp [hh])) hpk hes ht1 ht2
-
-/-- the identity permutation -/
-theorem shuffle_complete_identity (L : Lawful o q A) (gens : List E) (pk : E)
-    (es : List (Ciphertext E)) (tape1 tape2 : List X) (label : Bytes)
-    (hN : 0 < es.length) (hgens : gens.length = es.length + 1) (hgv : ∀ g ∈ gens, L.V g)
-    (hpk : L.V pk) (hes : ∀ c ∈ es, L.V c.mhr ∧ L.V c.gr)
-    (ht1 : es.length ≤ tape1.length) (ht2 : 4 * es.length + 4 ≤ tape2.length) :
-    ∃ eps rs rest1 pf rest2,
-      applyPermutation o pk (List.range es.length) es tape1 = .ok ((eps, rs), rest1) ∧
-      genProof o gens pk es eps rs (List.range es.length) label tape2 = .ok (pf, rest2) ∧
-      checkProof o gens pk pf es eps label = true :=
-  shuffle_complete L gens pk es _ tape1 tape2 label hN (List.Perm.refl _) hgens hgv hpk hes ht1 ht2
-
-/-- the reversal `N-1, …, 0` -/
-theorem shuffle_complete_reversal (L : Lawful o q A) (gens : List E) (pk : E)
-    (es : List (Ciphertext E)) (tape1 tape2 : List X) (label : Bytes)
-    (hN : 0 < es.length) (hgens : gens.length = es.length + 1) (hgv : ∀ g ∈ gens, L.V g)
-    (hpk : L.V pk) (hes : ∀ c ∈ es, L.V c.mhr ∧ L.V c.gr)
-    (ht1 : es.length ≤ tape1.length) (ht2 : 4 * es.length + 4 ≤ tape2.length) :
-    ∃ eps rs rest1 pf rest2,
-      applyPermutation o pk (List.range es.length).reverse es tape1 = .ok ((eps, rs), rest1) ∧
-      genProof o gens pk es eps rs (List.range es.length).reverse label tape2 = .ok (pf, rest2) ∧
-      checkProof o gens pk pf es eps label = true :=
-  shuffle_complete L gens pk es _ tape1 tape2 label hN (List.reverse_perm _) hgens hgv hpk hes
-    ht1 ht2
-
-/-- a single ciphertext (N = 1: the only permutation is `[0]`) -/
-theorem shuffle_complete_one (L : Lawful o q A) (h0 h1 pk : E) (e : Ciphertext E)
-    (r : X) (tape1 : List X) (tape2 : List X) (label : Bytes)
-    (hh0 : L.V h0) (hh1 : L.V h1) (hpk : L.V pk) (he : L.V e.mhr ∧ L.V e.gr)
-    (ht2 : 8 ≤ tape2.length) :
-    ∃ eps rs rest1 pf rest2,
-      applyPermutation o pk [0] [e] (r :: tape1) = .ok ((eps, rs), rest1) ∧
-      genProof o [h0, h1] pk [e] eps rs [0] label tape2 = .ok (pf, rest2) ∧
-      checkProof o [h0, h1] pk pf [e] eps label = true :=
-  shuffle_complete L [h0, h1] pk [e] [0] (r :: tape1) tape2 label (by simp)
-    (by simp [List.range_succ]) rfl
-    (by intro g hg; simp only [List.mem_cons, List.not_mem_nil, or_false] at hg
-        rcases hg with rfl | rfl
-        · exact hh0
-        · exact hh1)
-    hpk (by intro c hc; simp only [List.mem_cons, List.not_mem_nil, or_false] at hc
-            rw [hc]; exact he)
-    (by simp) (by simpa using ht2)
-
-/-! ### non-vacuity: the hypotheses are satisfiable for N = 2 on the 23-element toy group (order-11
-subgroup {1,2,3,4,6,8,9,12,13,16,18} of Z_23^*), with a repeated ciphertext, an identity
-component and the transposition; hence an accepted proof EXISTS there, for the real SHA-512
-challenges of `natOps`. -/
-open Strand.C15
-
-private theorem v23 (a : ℕ) (h : a ^ 11 % 23 = 1 := by norm_num) (h' : a < 23 := by norm_num) :
-    (natLawful P23 .bigint P23_safe).V a :=
-  ⟨natValid_of_pow P23 a h, h'⟩
-
-def gensEx : List ℕ := [2, 3, 4]
-def esEx : List (Ciphertext ℕ) := [⟨8, 9⟩, ⟨8, 9⟩]
-def esEx' : List (Ciphertext ℕ) := [⟨1, 13⟩, ⟨16, 1⟩]
-
-theorem gensEx_V : ∀ g ∈ gensEx, (natLawful P23 .bigint P23_safe).V g := by
-  intro g hg
-  simp only [gensEx, List.mem_cons, List.not_mem_nil, or_false] at hg
-  rcases hg with rfl | rfl | rfl
-  · exact v23 2
-  · exact v23 3
-  · exact v23 4
-
-theorem esEx_V : ∀ c ∈ esEx, (natLawful P23 .bigint P23_safe).V c.mhr ∧
-    (natLawful P23 .bigint P23_safe).V c.gr := by
-  intro c hc
-  simp only [esEx, List.mem_cons, List.not_mem_nil, or_false, or_self] at hc
-  rw [hc]; exact ⟨v23 8, v23 9⟩
-
-theorem esEx'_V : ∀ c ∈ esEx', (natLawful P23 .bigint P23_safe).V c.mhr ∧
-    (natLawful P23 .bigint P23_safe).V c.gr := by
-  intro c hc
-  simp only [esEx', List.mem_cons, List.not_mem_nil, or_false] at hc
-  rcases hc with rfl | rfl
-  · exact ⟨v23 1, v23 13⟩
-  · exact ⟨v23 16, v23 1⟩
-
-/-- transposition, repeated ciphertexts -/
-example (label : Bytes) : ∃ eps rs rest1 pf rest2,
-    applyPermutation (natOps P23 .bigint) 6 [1, 0] esEx [5, 7] = .ok ((eps, rs), rest1) ∧
-    genProof (natOps P23 .bigint) gensEx 6 esEx eps rs [1, 0] label
-      [1, 2, 3, 4, 5, 6, 7, 8, 9, 10, 0, 1] = .ok (pf, rest2) ∧
-    checkProof (natOps P23 .bigint) gensEx 6 pf esEx eps label = true :=
-  shuffle_complete (natLawful P23 .bigint P23_safe) gensEx 6 esEx [1, 0] [5, 7]
-    [1, 2, 3, 4, 5, 6, 7, 8, 9, 10, 0, 1] label (by simp [esEx])
-    (List.Perm.swap 0 1 []) rfl gensEx_V (v23 6) esEx_V (by simp [esEx]) (by simp [esEx])
-
-/-- identity permutation, ciphertexts with an identity component, zero randomness, malachite -/
-example (label : Bytes) : ∃ eps rs rest1 pf rest2,
-    applyPermutation (natOps P23 .malachite) 6 [0, 1] esEx' [0, 0] = .ok ((eps, rs), rest1) ∧
-    genProof (natOps P23 .malachite) gensEx 6 esEx' eps rs [0, 1] label
-      [0, 0, 0, 0, 0, 0, 0, 0, 0, 0, 0, 0] = .ok (pf, rest2) ∧
-    checkProof (natOps P23 .malachite) gensEx 6 pf esEx' eps label = true :=
-  shuffle_complete_valid (natLawful P23 .malachite P23_safe) gensEx 6 esEx' [0, 1] [0, 0]
-    [0, 0, 0, 0, 0, 0, 0, 0, 0, 0, 0, 0] label (by simp [esEx'])
-    (List.Perm.refl _) rfl (fun g hg => (gensEx_V g hg).1) (v23 6).1
-    (fun c hc => ⟨(esEx'_V c hc).1.1, (esEx'_V c hc).2.1⟩) (by simp [esEx']) (by simp [esEx'])
+      applyPermutation (natOps P fl) pk perm es tape1 = .ok ((eps, rs), rest1) ∧
+      genProof (natOps P fl) gens pk es eps rs perm label tape2 = .ok (pf, rest2) ∧
+      ∃ pf' es' eps' pk' gens',
+        tryFromSlice (codecShuffleProof (natOps P fl)) ((codecShuffleProof (natOps P fl)).enc pf)
+          = some pf' ∧
+        tryFromSlice (vecC (natOps P fl)) ((vecC (natOps P fl)).enc es) = some es' ∧
+        tryFromSlice (vecC (natOps P fl)) ((vecC (natOps P fl)).enc eps) = some eps' ∧
+        tryFromSlice (codecPk (natOps P fl)) ((codecPk (natOps P fl)).enc pk) = some pk' ∧
+        tryFromSlice (vecE (natOps P fl)) ((vecE (natOps P fl)).enc gens) = some gens' ∧
+        checkProof (natOps P fl) gens' pk' pf' es' eps' label = true :=
+  Wire.shuffle_proof_survives_wire P fl h W gens pk es perm tape1 tape2 label hN hperm hgens hgv
+    hpk hes ht1 ht2 h32
 
 end Strand.C03
